@@ -53,6 +53,7 @@ InitL == [h |-> 0,
           u |-> ("g:0" :> << <<0, S>> >>),
           meta |-> ("g:0" :> [v |-> S, kind |-> "pay", script |-> "?", h |-> 0, t |-> "pk"]),
           lost |-> <<>>,
+          destroyed |-> <<>>,  \* ranges displaced by a transaction reusing a txid (duplicate coinbase)
           runes |-> EmptyRunes,
           runeOf |-> <<>>,
           envs |-> <<>>,       \* inscription label -> static record
@@ -196,7 +197,9 @@ FoldBlock(Lp, b) ==
               order |-> Lp.order, floating |-> Lp.floating, revealedFee |-> {},
               runes |-> Lp.runes, runeOf |-> Lp.runeOf, rlog |-> <<>>]
       st == FoldTxs(st0, b.txs, h, 1)
-      cbl == "c" \o b.id
+      \* a duplicate coinbase has the txid -- hence the label -- of the coinbase it repeats: its outputs
+      \* displace the older entries, and the sats still held there are destroyed
+      cbl == IF Has(b, "dup") THEN "c" \o b.dup ELSE "c" \o b.id
       cin == << <<h * S, (h + 1) * S>> >> \o st.fees
       vals == [i \in 1..Len(b.cb) |-> b.cb[i].v]
       sp == SplitR(cin, vals)
@@ -215,6 +218,8 @@ FoldBlock(Lp, b) ==
       u |-> Ext(st.u, newU),
       meta |-> Ext(st.meta, newMeta),
       lost |-> Lp.lost \o sp.rest,
+      destroyed |-> Lp.destroyed \o ConcatAll([i \in 1..Len(outLabels) |->
+                                                 IF outLabels[i] \in DOMAIN st.u THEN st.u[outLabels[i]] ELSE <<>>]),
       runes |-> st.runes,
       runeOf |-> st.runeOf,
       envs |-> st.envs,
@@ -258,9 +263,17 @@ C02(o) ==
       inOut(x, s) == OffsetOf(ObsRanges(o, x), s, 0)
   IN /\ Chk("C02.nonunit", o.nonunit = <<>>, o.nonunit)
      /\ Chk("C02.partition",
-            /\ (sorted = <<>> \/ sorted[1][1] = 0)
-            /\ \A k \in 1..(Len(sorted) - 1) : sorted[k][2] = sorted[k + 1][1]
-            /\ (sorted # <<>> => sorted[Len(sorted)][2] = o.count * S)
+            IF L.destroyed = <<>>
+            THEN /\ (sorted = <<>> \/ sorted[1][1] = 0)
+                 /\ \A k \in 1..(Len(sorted) - 1) : sorted[k][2] = sorted[k + 1][1]
+                 /\ (sorted # <<>> => sorted[Len(sorted)][2] = o.count * S)
+            ELSE \* the stored ranges, together with the destroyed ones, tile [0, count * S) without overlap
+                 LET all == [k \in 1..Len(sorted) |-> <<sorted[k][1], sorted[k][2]>>] \o SelectSeq(L.destroyed, LAMBDA r : r[2] > r[1])
+                     starts == {all[k][1] : k \in 1..Len(all)}
+                     ends == {all[k][2] : k \in 1..Len(all)}
+                 IN /\ Cardinality(starts) = Len(all)
+                    /\ SumSeq([k \in 1..Len(all) |-> all[k][2] - all[k][1]]) = o.count * S
+                    /\ starts \ ends = {0} /\ ends \ starts = {o.count * S}
             /\ Len(sorted) = SumSeq([k \in 1..Len(o.outOrder) |->
                                      Len(SelectSeq(ObsRanges(o, o.outOrder[k]), LAMBDA r : r[2] > r[1]))]),
             <<"count", o.count>>)
@@ -272,12 +285,13 @@ C02(o) ==
            LET s == o.finds[k][1]
                f == o.finds[k][2]
            IN Chk("C02.find",
-                  IF s >= o.count * S THEN f = <<>>
+                  IF s >= o.count * S \/ OffsetOf(L.destroyed, s, 0) # NotFound THEN f = <<>>
                   ELSE f # <<>> /\ f[1] \in ObsOuts(o) /\ inOut(f[1], s) = f[2],
                   o.finds[k])
      /\ \A k \in 1..Len(o.franges) :
            LET fr == o.franges[k] IN
            IF fr[2] > o.count * S THEN Chk("C02.frangeUnmined", ~fr[3], fr)
+           ELSE IF \E d \in 1..Len(L.destroyed) : L.destroyed[d][1] < fr[2] /\ fr[1] < L.destroyed[d][2] THEN TRUE  \* touches destroyed sats
            ELSE Chk("C02.frange",
                     /\ fr[3]
                     /\ SumSeq([j \in 1..Len(fr[4]) |-> fr[4][j][2]]) = fr[2] - fr[1]
@@ -290,7 +304,9 @@ C02(o) ==
                     /\ \A j1, j2 \in 1..Len(fr[4]) : j1 # j2 => fr[4][j1][1] # fr[4][j2][1],
                     fr)
      /\ \A k \in 1..Len(o.rare) :
-           Chk("C02.rareRow", o.rare[k][2] \in ObsOuts(o) /\ inOut(o.rare[k][2], o.rare[k][1]) = o.rare[k][3], o.rare[k])
+           \* a rare sat destroyed by a duplicate txid keeps a stale row (recorded finding C02-stale-rare-row-after-duplicate)
+           ChkKF("C02.rareRow", o.rare[k][2] \in ObsOuts(o) /\ inOut(o.rare[k][2], o.rare[k][1]) = o.rare[k][3],
+                 OffsetOf(L.destroyed, o.rare[k][1], 0) # NotFound, "C02-stale-rare-row-after-duplicate", o.rare[k])
      /\ LET rareSats == {o.rare[j][1] : j \in 1..Len(o.rare)} IN
         \A k \in 1..Len(sorted) :
            (sorted[k][1] % S = 0) => Chk("C02.rareMissing", sorted[k][1] \in rareSats, sorted[k])
